@@ -17,6 +17,7 @@ import ToastyVerif.Model.Lock
 import ToastyVerif.Model.Walk
 import ToastyVerif.Model.Toast
 import ToastyVerif.Model.Lookup
+import ToastyVerif.Model.Sample
 
 namespace Driver
 
@@ -628,6 +629,28 @@ def handleToast (a : List String) : String :=
     | _, _, _ => "bad-op"
   | _ => "bad-op"
 
+/-! ### TOAST sampling: one stored pixel -/
+
+def parsePx (s : String) : Option PixelBase.Px := (s.splitOn ",").mapM parseCh
+
+/-- `px <mode> <default format> <override|-> <clobber 0|1> <old stored pixel|-> <sampled at display row r> <sampled at display row 255-r>`:
+the pixel stored at row r -/
+def handleSample (a : List String) : String :=
+  match a with
+  | ["px", mode, dflt, ov, clob, old, same, mirrored] =>
+    match modeOf mode, parsePx same, parsePx mirrored with
+    | some m, some same, some mirrored =>
+      let inv := Sample.invert dflt.toList (if ov = "-" then none else some ov.toList)
+      let new := if inv then mirrored else same
+      if clob = "1" then ",".intercalate (new.map showCh)
+      else
+        let basis := if old = "-" then some m.clearPx else parsePx old
+        match basis with
+        | some b => ",".intercalate ((m.updatePx b new).map showCh)
+        | none => "bad-op"
+    | _, _, _ => "bad-op"
+  | _ => "bad-op"
+
 def handle (toks : List String) : String :=
   match toks with
   | "gen" :: op :: args => match ints args with
@@ -649,6 +672,7 @@ def handle (toks : List String) : String :=
   | "lock" :: args => handleLock args
   | "walk" :: args => handleWalk args
   | "toast" :: args => handleToast args
+  | "sample" :: args => handleSample args
   | _ => "bad-op"
 
 end Driver
